@@ -36,10 +36,12 @@ def shapes(i):
         ('GX0', ('gen', [('raise',)])),
         ('GX1', ('gen', [('y', None), ('raise',)])),
         ('GvX', ('gen', [('y', b + 7), ('raise',)])),
+        ('RVok', [('retfire', 'gok')]),      # returns the Value of a nested event whose handler returns a value
+        ('RVx', [('retfire', 'gx')]),        # ... whose handler raises (that is not a raise of THIS event's handler)
     ]
 
 
-NSH = 12
+NSH = 14
 FLAGS = [dict(success=s, failure=f, notify=n, success_channels=sc)
          for s in (False, True) for f in (False, True) for n in (False, True) for sc in (None, ('other',))]
 NESTED_SHAPES = [0, 2, 5, 10]   # R, X, Gv, GX1 for the nested event's handlers
@@ -60,7 +62,7 @@ def programs(tier):
     for n in range(1, maxn + 1):
         for hs in itertools.product(range(NSH), repeat=n):
             for who in range(n):
-                if hs[who] not in (0, 1, 4, 5):
+                if hs[who] not in (0, 1, 4, 5):   # (nested fire only from R, N, Gn, Gv shapes)
                     continue
                 for fh in nest_h:
                     for fi in (3 * 4, 15) if tier == 'quick' else (0, 12, 15):
@@ -85,13 +87,15 @@ def build(program):
             name, script = shapes(5 + j)[si]
             handlers.append(('f%d' % j, 'f', 5 - j, script))
     handlers.append(('s0', 's', 0, [('ret', 99)]))
+    handlers.append(('gok0', 'gok', 0, [('ret', 71)]))
+    handlers.append(('gx0', 'gx', 0, [('raise',)]))
     return handlers
 
 
 def execute(program):
     hs, fi, nested = program
     # named observers only, so that an event without handlers really has none
-    ghost.World.observe_names = ['e_success', 'e_failure', 'f_success', 'f_failure', 'exception', 'e_value_changed']
+    ghost.World.observe_names = ['e_success', 'e_failure', 'f_success', 'f_failure', 'exception', 'e_value_changed', 'gok', 'gx']
     try:
         w = ghost.World(build(program))
     finally:
@@ -114,11 +118,23 @@ def judge_event(w, eid, hids, flags, shapes_of, bad, tag):
     val = w.values[eid]
     vals = [x[3] for x in log if x[0] == 'val' and x[2] == eid]
     raises = sum(1 for v in vals if v == 'ERR')
+    nested = [v for v in vals if isinstance(v, tuple) and v and v[0] == 'NESTED']
+
+    def resolve(v):
+        if isinstance(v, tuple) and v and v[0] == 'NESTED':
+            inner = [x[3] for x in log if x[0] == 'val' and x[2] == v[1]]
+            return None if not inner else (inner[0] if len(inner) == 1 else inner)
+        return v
+    vals = [resolve(v) for v in vals]
     exp = None if not vals else (vals[0] if len(vals) == 1 else vals)
     got = ghost.snapv(val.value)
-    if got != exp:
+    if nested and len(vals) > 1:
+        pass    # a nested (future) Value next to other results: how they combine is not stated by the property: not judged
+    elif got != exp:
         bad.append((tag + 'value', 'Value of %s holds %r, handlers produced %r' % (tag, got, vals)))
-    if bool(val.errors) != bool(raises):
+    if nested:
+        pass    # how the error flag of a nested Value combines with the outer one is not stated by the property: not judged
+    elif bool(val.errors) != bool(raises):
         bad.append((tag + 'errors-flag', 'errors flag is %r although %d handler(s) raised' % (val.errors, raises)))
     for h in hids:
         n = sum(1 for x in log if x[0] == 'enter' and x[1] == h and x[2] == eid)
@@ -184,6 +200,8 @@ def _work(part, nparts, payload):
         bad = judge(program, w, e, s, quiescent, crashed)
         st.outcome(tuple(x for x in w.log if x[0] in ('obs', 'val')))
         hs = program[0]
+        if any(si >= 12 for si in hs):
+            st.counters['programs_returning_a_nested_value'] += 1
         if len(set(hs)) > 1 or any(si >= 2 for si in hs):
             st.interesting(program)
         if any(si == 2 for si in hs) and any(si >= 3 for si in hs):
